@@ -128,6 +128,26 @@ type execSpec struct {
 	factory  func() any     // history steps only: a front-end request whose body cannot be decoded
 }
 
+// heldCanon renders a result object completely, the $first entry included (the same object is rendered twice:
+// when it was returned and after later calls), and says whether the $first issue is filed under its own path.
+func heldCanon(o *Observed, n *Node) string {
+	c := fullCanon(o, n)
+	if f := o.RawMap["$first"]; len(f) > 0 && f[0] != nil {
+		key := f[0].Path
+		if key == "" {
+			key = "$root"
+		}
+		filed := false
+		for _, i := range o.RawMap[key] {
+			if i == f[0] {
+				filed = true
+			}
+		}
+		c += fmt.Sprintf("\n$first = {code=%s path=%s msg=%q} filed under its own key: %v", f[0].Code, f[0].Path, addrRE.ReplaceAllString(f[0].Message, "<addr>"), filed)
+	}
+	return c
+}
+
 type heldResult struct {
 	obs   *Observed
 	node  *Node
@@ -336,6 +356,7 @@ func NewHistoryCase(g *Gen, id int) (*Case, []string, string) {
 	internals.ClearPools()
 	ref := probe.run()
 	refCanon := fullCanon(&ref, n)
+	refHeld := heldCanon(&ref, n)
 	var tags, notes []string
 	if id%5 < 2 {
 		// the usual life of a schema: its issues are rendered, handed back, and the same schema object runs again
@@ -370,7 +391,7 @@ func NewHistoryCase(g *Gen, id int) (*Case, []string, string) {
 			o := h.run()
 			hist = append(hist, fmt.Sprintf("Parse(%s) with %d issue(s) kept", Shape(n2), len(o.RawList)))
 			oc := o
-			held = append(held, heldResult{obs: &oc, node: n2, canon: fullCanon(&oc, n2), step: -2 + step})
+			held = append(held, heldResult{obs: &oc, node: n2, canon: heldCanon(&oc, n2), step: -2 + step})
 		}
 	}
 	for i := 0; i < k; i++ {
@@ -425,7 +446,7 @@ func NewHistoryCase(g *Gen, id int) (*Case, []string, string) {
 		hist = append(hist, fmt.Sprintf("%s(%s, %d opts, nil=%v) %s", map[bool]string{true: "Validate", false: "Parse"}[h.validate], Shape(h.node), len(h.opts), o.Nil, how))
 		if how == "kept" && !o.Nil {
 			oc := o
-			held = append(held, heldResult{obs: &oc, node: h.node, canon: fullCanon(&oc, h.node), step: i})
+			held = append(held, heldResult{obs: &oc, node: h.node, canon: heldCanon(&oc, h.node), step: i})
 		}
 	}
 	after := probe.run()
@@ -463,13 +484,13 @@ func NewHistoryCase(g *Gen, id int) (*Case, []string, string) {
 	}
 	if id%5 >= 2 {
 		// the caller still holds the first result (it was not handed back): nothing a later call does may show in it
-		if c := fullCanon(&ref, n); c != refCanon {
+		if c := heldCanon(&ref, n); c != refHeld {
 			tags = append(tags, "held_result")
-			notes = append(notes, "history: "+strings.Join(hist, " ; ")+"\nthe result of the first call, as returned:\n"+refCanon+"\nthe same result object after the later calls:\n"+c)
+			notes = append(notes, "history: "+strings.Join(hist, " ; ")+"\nthe result of the first call, as returned:\n"+refHeld+"\nthe same result object after the later calls:\n"+c)
 		}
 	}
 	for _, h := range held {
-		if c := fullCanon(h.obs, h.node); c != h.canon && len(notes) < 4 {
+		if c := heldCanon(h.obs, h.node); c != h.canon && len(notes) < 4 {
 			tags = append(tags, "held_result")
 			notes = append(notes, fmt.Sprintf("history: %s\nthe result of step %d, as returned:\n%s\nthe same result object after the later calls:\n%s", strings.Join(hist, " ; "), h.step, h.canon, c))
 		}
